@@ -185,7 +185,7 @@ fn main() {
     let mut rep = Report::new("C07", &cli);
     rep.note("rule", json!("case = trajectory of 50..600 steps (constant velocity / accelerating / jittering / stop-and-go, growing/shrinking, rotating; coordinates 1..1e4, heights 1..1e3, weights 0.5x..2x the defaults) with a random predict/update pattern (gaps of several predicts). A textbook f64 Kalman filter with full F,H,Q(h),R(h) and gain by full matrix inverse runs in lock-step on the same f32 inputs. After every step two comparisons: (a) one-step differential - the reference is restarted from the library's own previous state (read through the guarded accessor) and must reproduce the library's next state: mean within 1e-3 sigma + 32 ulp_f32, every covariance entry within 5e-6 of the (previous) variance scale; (b) a free-running lock-step reference is run alongside for information only (its deviation maxima are reported; f32 error accumulates with the P/R conditioning over predict-only gaps); the scaled asymmetry is reported for information (the asymmetric part is judged entry by entry by the one-step comparison), positive-definiteness (min eigenvalue of the diagonally scaled matrix > 1e-4), cross-block zeros; distance() vs f64 squared Mahalanobis distance of the library's own state (2e-3 relative); stationary target; vector filter == per-point filters bit for bit; calculate_cost: inverted == 100 - direct on a grid of 1e4 distances incl. both gates +-1ulp for the box and the point filter. Non-trivial: every trajectory with >= 10 updates (distinct by input hash)."));
     rep.note("assumptions", json!(["noise model as documented in the source: std = w*h (xc,yc,angle,h), constants for aspect; point filter unscaled", "tolerances carry >=10x head-room over the largest deviation observed on the pinned tree (see observed_maxima *_over_tol)"]));
-    let n = cli.cases(3000, 40_000);
+    let n = cli.cases(6000, 40_000);
     for idx in cli.index_range(n) {
         let mut rng = Rng::for_case(cli.seed, cli.shard, idx);
         rep.eval();
